@@ -21,7 +21,8 @@ pub const TOKEN: &str = "token";
 /// callers: the initial admin, a second admin candidate, a stranger; group configurations may add
 /// the member addresses A and B (indices 3, 4 = MEMBERS[0], MEMBERS[1]) as callers
 /// and the default hook addresses H1, H2 (indices 5, 6) as callers
-pub const CALLERS: [&str; 7] = ["AD", "AD2", "X", "A", "B", "H1", "H2"];
+/// and W (index 7), the chain-level (wasm) admin of the contract, who has no authority inside it
+pub const CALLERS: [&str; 8] = ["AD", "AD2", "X", "A", "B", "H1", "H2", "W"];
 /// default hook addresses; a configuration may instead name callers or stakers as hooks
 pub const HOOKS: [&str; 3] = ["H1", "H2", "H3"];
 pub const MEMBERS: [&str; 3] = ["A", "B", "C"];
@@ -125,6 +126,10 @@ pub struct GroupCfg {
     /// indices into CALLERS of the addresses that call (0,1 = admin candidates, 2 = stranger,
     /// 3,4 = the members A and B, 5,6 = the hook addresses H1 and H2)
     pub callers: Vec<u8>,
+    /// labels of the member addresses the indices of `initial` / the add and remove lists refer to
+    pub members: Vec<&'static str>,
+    /// the contract has the chain-level admin W (CALLERS[7])
+    pub wasm_admin: bool,
     /// labels of the addresses offered to AddHook/RemoveHook (may include the admins themselves)
     pub hooks: Vec<&'static str>,
     pub hmax: u64,
@@ -146,11 +151,11 @@ pub struct GroupAdmin {
 impl GroupAdmin {
     fn check_ref(&self, r: &Ref, o: &Obs, out: &mut Vec<Violation>) {
         admin_hooks_agree(&self.cfg.hooks, r, o, out);
-        let want: BTreeMap<String, u64> = r.members.iter().map(|(i, w)| (a(MEMBERS[*i as usize]), *w)).collect();
+        let want: BTreeMap<String, u64> = r.members.iter().map(|(i, w)| (a(self.cfg.members[*i as usize]), *w)).collect();
         if o.members != want {
             out.push(Violation::new(
                 "C14.members_are_what_the_admins_made_them",
-                format!("listed members {:?}, the admins' calls give {:?}", o.members, r.members.iter().map(|(i, w)| (MEMBERS[*i as usize], *w)).collect::<Vec<_>>()),
+                format!("listed members {:?}, the admins' calls give {:?}", o.members, r.members.iter().map(|(i, w)| (self.cfg.members[*i as usize], *w)).collect::<Vec<_>>()),
             ));
         }
     }
@@ -172,13 +177,16 @@ impl Model for GroupAdmin {
         w.dispatch = false;
         let msg = cw4_group::msg::InstantiateMsg {
             admin: cfg.admin.map(|i| a(CALLERS[i as usize])),
-            members: cfg.initial.iter().map(|(i, wt)| Member { addr: a(MEMBERS[*i as usize]), weight: *wt }).collect(),
+            members: cfg.initial.iter().map(|(i, wt)| Member { addr: a(self.cfg.members[*i as usize]), weight: *wt }).collect(),
         };
         let out = w.instantiate(group_vt(), &a(GROUP), &a("creator"), &to_json_vec(&msg).unwrap(), &[]);
         let mut v = vec![];
         if !out.ok() {
             v.push(Violation::new("cfg.instantiate_failed", out.err()));
             return (State { w, r: Ref::default(), obs: Arc::new(Obs::default()), dead: true }, v);
+        }
+        if cfg.wasm_admin {
+            w.set_wasm_admin(&a(GROUP), Some(&a("W")));
         }
         let r = Ref { admin: cfg.admin, hooks: vec![], members: cfg.initial.iter().cloned().collect() };
         let obs = match observe(&w, &a(GROUP)) {
@@ -259,8 +267,8 @@ impl Model for GroupAdmin {
                 *by,
                 "UpdateMembers",
                 cw4_group::msg::ExecuteMsg::UpdateMembers {
-                    add: add.iter().map(|(i, wt)| Member { addr: a(MEMBERS[*i as usize]), weight: *wt }).collect(),
-                    remove: remove.iter().map(|i| a(MEMBERS[*i as usize])).collect(),
+                    add: add.iter().map(|(i, wt)| Member { addr: a(self.cfg.members[*i as usize]), weight: *wt }).collect(),
+                    remove: remove.iter().map(|i| a(self.cfg.members[*i as usize])).collect(),
                 },
             ),
             GAct::Advance => unreachable!(),
@@ -311,8 +319,8 @@ impl Model for GroupAdmin {
             let listed: BTreeSet<String> = match act {
                 GAct::Update { add, remove, .. } => add
                     .iter()
-                    .map(|(i, _)| a(MEMBERS[*i as usize]))
-                    .chain(remove.iter().map(|i| a(MEMBERS[*i as usize])))
+                    .map(|(i, _)| a(self.cfg.members[*i as usize]))
+                    .chain(remove.iter().map(|i| a(self.cfg.members[*i as usize])))
                     .collect(),
                 _ => BTreeSet::new(),
             };
@@ -344,6 +352,8 @@ pub struct StakeCfg {
     pub cw20: bool,
     /// indices into CALLERS of the addresses that send the admin/hook calls
     pub callers: Vec<u8>,
+    /// the contract has the chain-level admin W (CALLERS[7])
+    pub wasm_admin: bool,
     /// labels of the addresses offered to AddHook/RemoveHook (may include a staker)
     pub hooks: Vec<&'static str>,
     pub hmax: u64,
@@ -425,6 +435,9 @@ impl Model for StakeAdmin {
         }
         if !v.is_empty() {
             return (State { w, r: Ref::default(), obs: Arc::new(Obs::default()), dead: true }, v);
+        }
+        if cfg.wasm_admin {
+            w.set_wasm_admin(&a(STAKE), Some(&a("W")));
         }
         let r = Ref { admin: cfg.admin, hooks: vec![], members: BTreeMap::new() };
         let obs = match observe(&w, &a(STAKE)) {
